@@ -6,6 +6,22 @@
 //!      (OrderSnapshot, OrderCancelled, full AccountSnapshot) and the `InFlightRequestRecorder`
 //!      (cids c0,c1 on instrument 1 / exchange 0, c2 on instrument 2 / exchange 1).
 //!
+//! A second engine model ("spread") puts c0 on instrument 0 and c1 on instrument 1 of exchange 0, so a full
+//! account snapshot of that exchange carries TWO instrument entries (and lists an instrument without
+//! orders as an empty entry).
+//!
+//! Value classes chosen so that coarse comparisons cannot hide: the three exchange instants are
+//! +1 s, +1 s + 1 µs and +2.5 s (a guard that compares at second or millisecond resolution sees the first
+//! two as equal), the order quantity is 1 with fill levels 0, 0.6 and 1 (a remaining quantity of 0.4 is
+//! not "nothing left"). Failed cancels / failed opens come in two classes (rejected by the venue, and a
+//! connectivity error such as a timeout); cancel requests with and without the exchange order id; the
+//! batch forms `record_in_flight_opens / _cancels` (what the engine itself calls) with two requests in
+//! both orders.
+//!
+//! The "engine-process" models drive the same alphabet through the engine's own entry point
+//! `Engine::process`: reports as `EngineEvent::Account(Item)`, "request sent" as the user commands
+//! `SendOpenRequests / SendCancelRequests` over healthy execution links (trading disabled / enabled).
+//!
 //! Alphabet per cid: OpenSent (only while untracked: unique cids are the engine contract), CancelSent,
 //! Snap(OpenInFlight), Snap(Open t) for t in {1,2,3} with the fill level given by an *exchange
 //! consistent timeline* (fill level non-decreasing in exchange time; all 10 timelines per cid are
@@ -21,6 +37,12 @@
 use super::common::*;
 use crate::core::{Ctx, Outcome, hash_of};
 use crate::explore::bfs::{self, Model, Viol};
+use barter::{
+    EngineEvent,
+    engine::{Processor, command::Command},
+    execution::AccountStreamEvent,
+};
+use barter_integration::collection::one_or_many::OneOrMany;
 use barter::engine::state::{
     instrument::data::DefaultInstrumentMarketData,
     global::DefaultGlobalData,
@@ -29,7 +51,7 @@ use barter::engine::state::{
 };
 use barter_execution::{
     AccountEvent, AccountEventKind, AccountSnapshot, InstrumentAccountSnapshot,
-    error::{ApiError, OrderError},
+    error::{ApiError, ConnectivityError, OrderError},
     order::{
         Order, OrderKey, OrderKind, TimeInForce,
         id::{ClientOrderId, OrderId},
@@ -46,7 +68,36 @@ use rust_decimal::Decimal;
 use serde::{Deserialize, Serialize};
 use serde_json::{Value, json};
 
-const QTY: u8 = 2; // order quantity; fill levels 0,1,2 (2 = nothing left to fill)
+const QTY: u8 = 2; // fill LEVELS 0,1,2 (2 = nothing left to fill); see `fill_of`
+
+/// exchange instant of time index t in {1,2,3}: +1 s, +1 s + 1 µs, +2.5 s
+fn time_of(t: u8) -> chrono::DateTime<chrono::Utc> {
+    match t {
+        1 => t_plus(1),
+        2 => t_plus(1) + chrono::TimeDelta::microseconds(1),
+        3 => t_plus_ms(2500),
+        _ => unreachable!("time index"),
+    }
+}
+/// inverse of `time_of` (0 = not an instant of the alphabet)
+fn time_index(d: chrono::DateTime<chrono::Utc>) -> u8 {
+    (1..=3u8).find(|t| time_of(*t) == d).unwrap_or(0)
+}
+/// order quantity 1; filled quantity of fill level f: 0, 0.6, 1
+fn qty() -> Decimal {
+    Decimal::ONE
+}
+fn fill_of(f: u8) -> Decimal {
+    match f {
+        0 => Decimal::ZERO,
+        1 => Decimal::new(6, 1),
+        _ => Decimal::ONE,
+    }
+}
+/// inverse of `fill_of` (255 = not a fill level of the alphabet)
+fn fill_index(d: Decimal) -> u8 {
+    (0..=QTY).find(|f| fill_of(*f) == d).unwrap_or(255)
+}
 
 #[derive(Debug, Clone, Copy, PartialEq, Eq, Hash, Serialize, Deserialize)]
 pub enum Kind {
@@ -79,6 +130,10 @@ pub enum Rep {
     FullyFilled,
     Expired,
     OpenFailed,
+    /// open failed with a connectivity error (request timed out) instead of a venue rejection
+    OpenFailedTimeout,
+    /// open failed with an API error other than a rejection (rate limit)
+    OpenFailedRateLimit,
 }
 
 #[derive(Debug, Clone, PartialEq, Eq, Hash, Serialize, Deserialize)]
@@ -90,6 +145,16 @@ pub enum Act {
     CancelErr(usize),
     /// full account snapshot carrying these order reports (layer b only)
     Full(Vec<(usize, Rep)>),
+    /// cancel request carrying the exchange order id
+    CancelSentWithId(usize),
+    /// cancel failed with a connectivity error (timeout)
+    CancelErrTimeout(usize),
+    /// cancel failed with an API error other than a rejection (rate limit)
+    CancelErrRateLimit(usize),
+    /// `record_in_flight_opens` with these requests, in this order (all untracked)
+    OpenSentMany(Vec<usize>),
+    /// `record_in_flight_cancels` with these requests, in this order
+    CancelSentMany(Vec<usize>),
 }
 
 #[derive(Clone, Copy, PartialEq, Eq)]
@@ -100,6 +165,10 @@ pub enum Layer {
 
 pub struct M {
     layer: Layer,
+    /// engine layer only: c0 on instrument 0, c1 on instrument 1 (both exchange 0), c2 on instrument 2
+    spread: bool,
+    /// engine layer only: Some(trading state) = inputs go through `Engine::process`
+    process: Option<TradingState>,
     n_cids: usize,
     timelines: Vec<Vec<[u8; 3]>>, // initial configurations (one timeline per cid)
     instruments: IndexedInstruments,
@@ -145,13 +214,24 @@ impl M {
             .add_instrument(spot(EXCHANGES[0], "x0_eth_usdt", "ETHUSDT", "eth", "usdt"))
             .add_instrument(spot(EXCHANGES[1], "x1_btc_usdt", "XBT/USDT", "btc", "usdt"))
             .build();
-        Self { layer, n_cids, timelines: cfgs, instruments }
+        Self { layer, spread: false, process: None, n_cids, timelines: cfgs, instruments }
+    }
+
+    pub fn process(mut self, trading: TradingState) -> Self {
+        self.process = Some(trading);
+        self
+    }
+
+    pub fn spread(mut self) -> Self {
+        self.spread = true;
+        self
     }
 
     /// (exchange, instrument) a cid lives on
     fn home(&self, c: usize) -> (ExchangeIndex, InstrumentIndex) {
         match self.layer {
             Layer::Orders => (ExchangeIndex(0), InstrumentIndex(1)),
+            Layer::Engine if self.spread => (ExchangeIndex(if c < 2 { 0 } else { 1 }), InstrumentIndex(c)),
             Layer::Engine => {
                 if c < 2 {
                     (ExchangeIndex(0), InstrumentIndex(1))
@@ -175,7 +255,7 @@ impl M {
     }
 
     fn open_meta(&self, c: usize, t: u8, f: u8) -> Open {
-        Open { id: oid(c), time_exchange: t_plus(t as i64), filled_quantity: Decimal::from(f) }
+        Open { id: oid(c), time_exchange: time_of(t), filled_quantity: fill_of(f) }
     }
 
     fn active_order(&self, c: usize, p: &Proj) -> Order<ExchangeIndex, InstrumentIndex, ActiveOrderState> {
@@ -191,7 +271,7 @@ impl M {
             key: self.key(c),
             side: Self::side(c),
             price: Self::price(c),
-            quantity: Decimal::from(QTY),
+            quantity: qty(),
             kind: OrderKind::Limit,
             time_in_force: TimeInForce::GoodUntilCancelled { post_only: false },
             state,
@@ -205,16 +285,18 @@ impl M {
                 order: mt.map(|t| self.open_meta(c, t, cfg[c][(t - 1) as usize])),
             }),
             Rep::Open(t) => OrderState::active(self.open_meta(c, t, cfg[c][(t - 1) as usize])),
-            Rep::Cancelled(t) => OrderState::inactive(Cancelled { id: oid(c), time_exchange: t_plus(t as i64) }),
+            Rep::Cancelled(t) => OrderState::inactive(Cancelled { id: oid(c), time_exchange: time_of(t) }),
             Rep::FullyFilled => OrderState::fully_filled(),
             Rep::Expired => OrderState::expired(),
             Rep::OpenFailed => OrderState::inactive(OrderError::Rejected(ApiError::OrderRejected("script".into()))),
+            Rep::OpenFailedTimeout => OrderState::inactive(OrderError::Connectivity(ConnectivityError::Timeout)),
+            Rep::OpenFailedRateLimit => OrderState::inactive(OrderError::Rejected(ApiError::RateLimit)),
         };
         Order {
             key: self.key(c),
             side: Self::side(c),
             price: Self::price(c),
-            quantity: Decimal::from(QTY),
+            quantity: qty(),
             kind: OrderKind::Limit,
             time_in_force: TimeInForce::GoodUntilCancelled { post_only: false },
             state,
@@ -227,7 +309,7 @@ impl M {
             state: RequestOpen {
                 side: Self::side(c),
                 price: Self::price(c),
-                quantity: Decimal::from(QTY),
+                quantity: qty(),
                 kind: OrderKind::Limit,
                 time_in_force: TimeInForce::GoodUntilCancelled { post_only: false },
             },
@@ -236,13 +318,18 @@ impl M {
     fn request_cancel(&self, c: usize) -> OrderRequestCancel {
         OrderRequestCancel { key: self.key(c), state: RequestCancel { id: None } }
     }
+    fn request_cancel_with_id(&self, c: usize) -> OrderRequestCancel {
+        OrderRequestCancel { key: self.key(c), state: RequestCancel { id: Some(oid(c)) } }
+    }
     fn cancel_response(&self, c: usize, ok: bool) -> OrderResponseCancel {
+        self.cancel_response_with(c, if ok { None } else { Some(OrderError::Rejected(ApiError::OrderRejected("script".into()))) })
+    }
+    fn cancel_response_with(&self, c: usize, err: Option<OrderError>) -> OrderResponseCancel {
         OrderResponseCancel {
             key: self.key(c),
-            state: if ok {
-                Ok(Cancelled { id: oid(c), time_exchange: t_plus(3) })
-            } else {
-                Err(OrderError::Rejected(ApiError::OrderRejected("script".into())))
+            state: match err {
+                None => Ok(Cancelled { id: oid(c), time_exchange: time_of(3) }),
+                Some(e) => Err(e),
             },
         }
     }
@@ -250,9 +337,7 @@ impl M {
     /// project one real tracked order; also says whether its static fields are intact
     fn project(&self, c: usize, o: &Order<ExchangeIndex, InstrumentIndex, ActiveOrderState>) -> (Proj, bool) {
         let meta_of = |open: &Open| -> (u8, u8) {
-            let t = (open.time_exchange - t0()).num_seconds() as u8;
-            let f = open.filled_quantity.try_into().unwrap_or(255u8);
-            (t, f)
+            (time_index(open.time_exchange), fill_index(open.filled_quantity))
         };
         let (proj, id_ok) = match &o.state {
             ActiveOrderState::OpenInFlight(_) => (Proj { kind: Kind::InFlight, meta: None }, true),
@@ -266,7 +351,7 @@ impl M {
             && o.key == self.key(c)
             && o.side == Self::side(c)
             && o.price == Self::price(c)
-            && o.quantity == Decimal::from(QTY)
+            && o.quantity == qty()
             && o.kind == OrderKind::Limit
             && o.time_in_force == TimeInForce::GoodUntilCancelled { post_only: false };
         (proj, intact)
@@ -299,6 +384,17 @@ impl M {
                     Act::CancelOk(c) => orders.update_from_cancel_response::<AssetIndex>(&self.cancel_response(*c, true)),
                     Act::CancelErr(c) => orders.update_from_cancel_response::<AssetIndex>(&self.cancel_response(*c, false)),
                     Act::Full(_) => unreachable!(),
+                    Act::CancelSentWithId(c) => orders.record_in_flight_cancel(&self.request_cancel_with_id(*c)),
+                    Act::CancelErrTimeout(c) => orders.update_from_cancel_response::<AssetIndex>(&self.cancel_response_with(*c, Some(err_timeout()))),
+                    Act::CancelErrRateLimit(c) => orders.update_from_cancel_response::<AssetIndex>(&self.cancel_response_with(*c, Some(err_rate_limit()))),
+                    Act::OpenSentMany(cs) => {
+                        let reqs: Vec<_> = cs.iter().map(|c| self.request_open(*c)).collect();
+                        orders.record_in_flight_opens(&reqs)
+                    }
+                    Act::CancelSentMany(cs) => {
+                        let reqs: Vec<_> = cs.iter().map(|c| self.request_cancel(*c)).collect();
+                        orders.record_in_flight_cancels(&reqs)
+                    }
                 }
                 for (k, o) in orders.0.iter() {
                     match self.cid_index(k) {
@@ -328,22 +424,44 @@ impl M {
                         state.instruments.instrument_index_mut(&inst).orders.0.insert(cid(c), self.active_order(c, p));
                     }
                 }
+                // entry point: the engine state's own methods, or the engine's (`Engine::process`)
+                let mut ep = match self.process {
+                    None => Ep::State(Box::new(state)),
+                    Some(trading) => {
+                        let (mut engine, _) = build_engine(&self.instruments, trading, &[]);
+                        engine.state = EState { trading, ..state };
+                        Ep::Engine(Box::new(engine))
+                    }
+                };
                 let ev = |c: usize, kind: AccountEventKind<ExchangeIndex, AssetIndex, InstrumentIndex>| AccountEvent {
                     exchange: self.home(c).0,
                     kind,
                 };
                 match a {
-                    Act::OpenSent(c) => state.record_in_flight_open(&self.request_open(*c)),
-                    Act::CancelSent(c) => state.record_in_flight_cancel(&self.request_cancel(*c)),
+                    Act::OpenSent(c) => ep.open(vec![self.request_open(*c)], false),
+                    Act::CancelSent(c) => ep.cancel(vec![self.request_cancel(*c)], false),
                     Act::Snap(c, rep) => {
                         let o = self.snapshot_order(*c, *rep, &s.cfg);
-                        let _ = state.update_from_account(&ev(*c, AccountEventKind::OrderSnapshot(Snapshot(o))));
+                        ep.account(ev(*c, AccountEventKind::OrderSnapshot(Snapshot(o))));
                     }
                     Act::CancelOk(c) => {
-                        let _ = state.update_from_account(&ev(*c, AccountEventKind::OrderCancelled(self.cancel_response(*c, true))));
+                        ep.account(ev(*c, AccountEventKind::OrderCancelled(self.cancel_response(*c, true))));
                     }
                     Act::CancelErr(c) => {
-                        let _ = state.update_from_account(&ev(*c, AccountEventKind::OrderCancelled(self.cancel_response(*c, false))));
+                        ep.account(ev(*c, AccountEventKind::OrderCancelled(self.cancel_response(*c, false))));
+                    }
+                    Act::CancelSentWithId(c) => ep.cancel(vec![self.request_cancel_with_id(*c)], false),
+                    Act::CancelErrTimeout(c) => {
+                        ep.account(ev(*c, AccountEventKind::OrderCancelled(self.cancel_response_with(*c, Some(err_timeout())))));
+                    }
+                    Act::CancelErrRateLimit(c) => {
+                        ep.account(ev(*c, AccountEventKind::OrderCancelled(self.cancel_response_with(*c, Some(err_rate_limit())))));
+                    }
+                    Act::OpenSentMany(cs) => {
+                        ep.open(cs.iter().map(|c| self.request_open(*c)).collect(), true)
+                    }
+                    Act::CancelSentMany(cs) => {
+                        ep.cancel(cs.iter().map(|c| self.request_cancel(*c)).collect(), true)
                     }
                     Act::Full(items) => {
                         // one AccountSnapshot per exchange present in `items` would be the realistic
@@ -357,6 +475,15 @@ impl M {
                             for (c, r) in its {
                                 by_inst.entry(self.home(c).1.0).or_default().push(self.snapshot_order(c, r, &s.cfg));
                             }
+                            if self.spread {
+                                // the snapshot lists every instrument of the exchange, those without a
+                                // report as an entry with no orders
+                                for (i, (_, inst_state)) in ep.state().instruments.0.iter().enumerate() {
+                                    if inst_state.instrument.exchange == ExchangeIndex(x) {
+                                        by_inst.entry(i).or_default();
+                                    }
+                                }
+                            }
                             let snap = AccountSnapshot {
                                 exchange: ExchangeIndex(x),
                                 balances: vec![],
@@ -365,11 +492,11 @@ impl M {
                                     .map(|(i, orders)| InstrumentAccountSnapshot { instrument: InstrumentIndex(i), orders })
                                     .collect(),
                             };
-                            let _ = state.update_from_account(&AccountEvent { exchange: ExchangeIndex(x), kind: AccountEventKind::Snapshot(snap) });
+                            ep.account(AccountEvent { exchange: ExchangeIndex(x), kind: AccountEventKind::Snapshot(snap) });
                         }
                     }
                 }
-                for (i, (_, inst_state)) in state.instruments.0.iter().enumerate() {
+                for (i, (_, inst_state)) in ep.state().instruments.0.iter().enumerate() {
                     for (k, o) in inst_state.orders.0.iter() {
                         match self.cid_index(k) {
                             Some(c) if o.key.cid == *k => {
@@ -393,6 +520,58 @@ impl M {
     }
 }
 
+/// Where the engine layer delivers its inputs.
+enum Ep {
+    /// `EngineState::update_from_account` + its `InFlightRequestRecorder`
+    State(Box<EState>),
+    /// `Engine::process`: account items as `EngineEvent::Account(Item)`, requests as user commands
+    /// (`Command::SendOpenRequests / SendCancelRequests`, execution links healthy)
+    Engine(Box<SEngine>),
+}
+impl Ep {
+    fn account(&mut self, ev: AccountEvent) {
+        match self {
+            Ep::State(s) => {
+                let _ = s.update_from_account(&ev);
+            }
+            Ep::Engine(e) => {
+                let _ = e.process(EngineEvent::Account(AccountStreamEvent::Item(ev)));
+            }
+        }
+    }
+    fn open(&mut self, reqs: Vec<OrderRequestOpen>, batch: bool) {
+        match self {
+            Ep::State(s) if batch => s.record_in_flight_opens(&reqs),
+            Ep::State(s) => s.record_in_flight_open(&reqs[0]),
+            Ep::Engine(e) => {
+                let _ = e.process(EngineEvent::Command(Command::SendOpenRequests(OneOrMany::from_iter(reqs))));
+            }
+        }
+    }
+    fn cancel(&mut self, reqs: Vec<OrderRequestCancel>, batch: bool) {
+        match self {
+            Ep::State(s) if batch => s.record_in_flight_cancels(&reqs),
+            Ep::State(s) => s.record_in_flight_cancel(&reqs[0]),
+            Ep::Engine(e) => {
+                let _ = e.process(EngineEvent::Command(Command::SendCancelRequests(OneOrMany::from_iter(reqs))));
+            }
+        }
+    }
+    fn state(&self) -> &EState {
+        match self {
+            Ep::State(s) => s,
+            Ep::Engine(e) => &e.state,
+        }
+    }
+}
+
+fn err_timeout() -> OrderError {
+    OrderError::Connectivity(ConnectivityError::Timeout)
+}
+fn err_rate_limit() -> OrderError {
+    OrderError::Rejected(ApiError::RateLimit)
+}
+
 fn kind_name(p: &Option<Proj>) -> &'static str {
     match p {
         None => "Untracked",
@@ -410,6 +589,8 @@ fn input_name(i: &In, cfg_c: &[u8; 3], prev: &Option<Proj>) -> String {
         In::CancelSent => "CancelSent".into(),
         In::CancelOk => "CancelOk".into(),
         In::CancelErr => "CancelErr".into(),
+        In::CancelSentWithId => "CancelSent(with-order-id)".into(),
+        In::CancelErrOther(class) => format!("CancelErr({class})"),
         In::Rep(Rep::InFlight) => "Snap(OpenInFlight)".into(),
         In::Rep(Rep::CancelInFlight(None)) => "Snap(CancelInFlight(None))".into(),
         In::Rep(Rep::CancelInFlight(Some(t))) => {
@@ -439,6 +620,8 @@ fn input_name(i: &In, cfg_c: &[u8; 3], prev: &Option<Proj>) -> String {
         In::Rep(Rep::FullyFilled) => "Snap(FullyFilled)".into(),
         In::Rep(Rep::Expired) => "Snap(Expired)".into(),
         In::Rep(Rep::OpenFailed) => "Snap(OpenFailed)".into(),
+        In::Rep(Rep::OpenFailedTimeout) => "Snap(OpenFailed,connectivity)".into(),
+        In::Rep(Rep::OpenFailedRateLimit) => "Snap(OpenFailed,rate-limit)".into(),
     }
 }
 
@@ -449,6 +632,9 @@ enum In {
     Rep(Rep),
     CancelOk,
     CancelErr,
+    CancelSentWithId,
+    /// a failed cancel of another error class (same rule R3 as `CancelErr`)
+    CancelErrOther(&'static str),
 }
 
 /// The statement as allowed-successor sets. Returns (rule name, allowed next projections).
@@ -458,7 +644,7 @@ fn allowed(prev: &Option<Proj>, input: &In, cfg_c: &[u8; 3]) -> (&'static str, V
         // R1: tracked when a request for it is sent
         In::OpenSent => ("R1-open-request-sent-tracks", vec![some(Kind::InFlight, None)]),
         // R6: the in-flight recorder never resurrects or drops an id; keeps the confirmed open data
-        In::CancelSent => match prev {
+        In::CancelSent | In::CancelSentWithId => match prev {
             None => ("R6-cancel-sent-on-untracked-is-noop", vec![None]),
             Some(p) => ("R6-cancel-sent-marks-cancelling-keeps-open-data", vec![some(Kind::Cancelling, p.meta)]),
         },
@@ -515,13 +701,13 @@ fn allowed(prev: &Option<Proj>, input: &In, cfg_c: &[u8; 3]) -> (&'static str, V
             }
         }
         // R2: cancelled / fully filled / expired / failed report untracks
-        In::Rep(Rep::Cancelled(_)) | In::Rep(Rep::FullyFilled) | In::Rep(Rep::Expired) | In::Rep(Rep::OpenFailed) => {
+        In::Rep(Rep::Cancelled(_)) | In::Rep(Rep::FullyFilled) | In::Rep(Rep::Expired) | In::Rep(Rep::OpenFailed) | In::Rep(Rep::OpenFailedTimeout) | In::Rep(Rep::OpenFailedRateLimit) => {
             ("R2-terminal-report-untracks", vec![None])
         }
         // R2: a confirmed cancel untracks
         In::CancelOk => ("R2-cancel-confirmation-untracks", vec![None]),
         // R3: a failed cancel restores the last exchange-confirmed open state
-        In::CancelErr => match prev {
+        In::CancelErr | In::CancelErrOther(_) => match prev {
             Some(Proj { kind: Kind::Cancelling, meta: Some(m) }) => ("R3-failed-cancel-restores-confirmed-open", vec![some(Kind::Open, Some(*m))]),
             // nothing confirmed yet: untrack (what the unit tests document) or back to in flight
             Some(Proj { kind: Kind::Cancelling, meta: None }) => ("R3-failed-cancel-without-confirmed-data", vec![None, some(Kind::InFlight, None)]),
@@ -562,6 +748,22 @@ impl Model for M {
             v.push(Act::Snap(c, Rep::OpenFailed));
             v.push(Act::CancelOk(c));
             v.push(Act::CancelErr(c));
+            v.push(Act::CancelSentWithId(c));
+            v.push(Act::Snap(c, Rep::OpenFailedTimeout));
+            v.push(Act::Snap(c, Rep::OpenFailedRateLimit));
+            v.push(Act::CancelErrTimeout(c));
+            v.push(Act::CancelErrRateLimit(c));
+        }
+        // the batch recorders, two requests in both orders
+        for c1 in 0..self.n_cids {
+            for c2 in 0..self.n_cids {
+                if c1 != c2 {
+                    v.push(Act::CancelSentMany(vec![c1, c2]));
+                    if s.orders[c1].is_none() && s.orders[c2].is_none() {
+                        v.push(Act::OpenSentMany(vec![c1, c2]));
+                    }
+                }
+            }
         }
         if self.layer == Layer::Engine {
             let mini = [Rep::Open(1), Rep::Open(3), Rep::FullyFilled];
@@ -586,16 +788,17 @@ impl Model for M {
     fn step(&self, s: &St, a: &Act, out: &mut Vec<Viol>) -> Option<St> {
         let layer = match self.layer {
             Layer::Orders => "orders",
+            Layer::Engine if self.process.is_some() => "engine-process",
             Layer::Engine => "engine",
         };
         // a panic of the code under test on an input of the quantifier is a violation (reported once
         // per kind of input), not a machinery failure
         let Ok((after, complaints)) = crate::core::guarded(|| self.execute(s, a)) else {
             let kind = match a {
-                Act::OpenSent(_) => "open-sent",
-                Act::CancelSent(_) => "cancel-sent",
+                Act::OpenSent(_) | Act::OpenSentMany(_) => "open-sent",
+                Act::CancelSent(_) | Act::CancelSentWithId(_) | Act::CancelSentMany(_) => "cancel-sent",
                 Act::Snap(..) => "order-snapshot",
-                Act::CancelOk(_) | Act::CancelErr(_) => "cancel-response",
+                Act::CancelOk(_) | Act::CancelErr(_) | Act::CancelErrTimeout(_) | Act::CancelErrRateLimit(_) => "cancel-response",
                 Act::Full(_) => "full-snapshot",
             };
             out.push((format!("C01/{layer}/panic/{kind}"), format!("state={:?} action={a:?}: the code under test panicked", s.orders)));
@@ -612,8 +815,17 @@ impl Model for M {
             Act::CancelOk(c) => vec![(*c, In::CancelOk)],
             Act::CancelErr(c) => vec![(*c, In::CancelErr)],
             Act::Full(items) => items.iter().map(|(c, r)| (*c, In::Rep(*r))).collect(),
+            Act::CancelSentWithId(c) => vec![(*c, In::CancelSentWithId)],
+            Act::CancelErrTimeout(c) => vec![(*c, In::CancelErrOther("connectivity"))],
+            Act::CancelErrRateLimit(c) => vec![(*c, In::CancelErrOther("rate-limit"))],
+            Act::OpenSentMany(cs) => cs.iter().map(|c| (*c, In::OpenSent)).collect(),
+            Act::CancelSentMany(cs) => cs.iter().map(|c| (*c, In::CancelSent)).collect(),
         };
-        let via = if matches!(a, Act::Full(_)) { "full-snapshot" } else { "single" };
+        let via = match a {
+            Act::Full(_) => "full-snapshot",
+            Act::OpenSentMany(_) | Act::CancelSentMany(_) => "batch",
+            _ => "single",
+        };
         for c in 0..self.n_cids {
             match inputs.iter().find(|(ic, _)| *ic == c) {
                 Some((_, input)) => {
@@ -673,10 +885,15 @@ fn models(ctx: &Ctx) -> Vec<(String, M, Option<usize>)> {
     match ctx.tier {
         crate::core::Tier::Quick => {
             v.push(("engine/3cids/rep-timelines".to_string(), M::new(Layer::Engine, &[all.clone(), few.clone(), two.clone()]), None));
+            v.push(("engine-spread/3cids/few-timelines".to_string(), M::new(Layer::Engine, &[few.clone(), few.clone(), two.clone()]).spread(), None));
+            v.push(("engine-process/trading=disabled/3cids/two-timelines".to_string(), M::new(Layer::Engine, &[few.clone(), two.clone(), two.clone()]).process(TradingState::Disabled), None));
         }
         crate::core::Tier::Thorough => {
             v.push(("orders/3cids/rep-timelines".to_string(), M::new(Layer::Orders, &[all.clone(), few.clone(), few.clone()]), None));
             v.push(("engine/3cids/all-timelines".to_string(), M::new(Layer::Engine, &[all.clone(), all.clone(), all.clone()]), None));
+            v.push(("engine-spread/3cids/rep-timelines".to_string(), M::new(Layer::Engine, &[all.clone(), few.clone(), few.clone()]).spread(), None));
+            v.push(("engine-process/trading=disabled/3cids/rep-timelines".to_string(), M::new(Layer::Engine, &[all.clone(), few.clone(), two.clone()]).process(TradingState::Disabled), None));
+            v.push(("engine-process/trading=enabled/spread/3cids/few-timelines".to_string(), M::new(Layer::Engine, &[few.clone(), few.clone(), two.clone()]).spread().process(TradingState::Enabled), None));
         }
     }
     v
@@ -696,7 +913,7 @@ pub fn run(ctx: &Ctx) -> Outcome {
         transitions += st.transitions;
         max_depth = max_depth.max(st.max_depth);
         impl_states += st.distinct_impl_states;
-        parts.push(json!({"model": label, "initial_configurations": m.timelines.len(), "states": st.states, "transitions": st.transitions,
+        parts.push(json!({"model": label, "spread_over_instruments": m.spread, "entry_point": match (m.layer, m.process) { (Layer::Orders, _) => "Orders", (_, None) => "EngineState::update_from_account + InFlightRequestRecorder", (_, Some(_)) => "Engine::process (account items, SendOpenRequests / SendCancelRequests commands)" }, "initial_configurations": m.timelines.len(), "states": st.states, "transitions": st.transitions,
             "max_depth": st.max_depth, "fixpoint": st.fixpoint, "distinct_impl_states": st.distinct_impl_states,
             "steps_with_oracle_violation": st.oracle_violation_steps}));
         samples.extend(st.samples);
@@ -717,7 +934,8 @@ pub fn run(ctx: &Ctx) -> Outcome {
         }),
         assumptions: vec![
             "client order ids are unique per order (OpenSent only offered while the id is untracked)".into(),
-            "exchange reports of one order follow a consistent timeline: fill level non-decreasing in exchange time (all 10 timelines over t in {1,2,3}, fill in {0,1,2} of quantity 2); any report may be delivered late, repeatedly, out of order".into(),
+            "exchange reports of one order follow a consistent timeline: fill level non-decreasing in exchange time (all 10 timelines over three instants +1 s, +1 s + 1 us, +2.5 s; filled quantity in {0, 0.6, 1} of quantity 1); any report may be delivered late, repeatedly, out of order".into(),
+            "failed cancels / failed opens are offered in the classes venue rejection, rate limit and connectivity timeout; the classes 'order already cancelled / already fully filled' are not offered (the statement does not distinguish them, an implementation might reasonably)".into(),
             "CancelInFlight order snapshots are in the alphabet with a permissive oracle (order stays tracked, held data never older, nothing else required)".into(),
         ],
     }
